@@ -50,14 +50,20 @@ class Meta(dict):
         return super().__getitem__(item)
 
     def update(self, *args, **kwargs):
-        if args:
-            if len(args) > 1:
-                raise ValueError('Only one argument can be input')
-            other = dict(args[0])
-            for key in other:
-                self[key] = other[key]
-        for key in kwargs:
-            self[key] = kwargs[key]
+        if len(args) > 1:
+            raise ValueError('Only one argument can be input')
+        other = dict(*args, **kwargs)
+        # validate all keys first so that a failed update changes nothing
+        for key in other:
+            if self.key_mapping.get(key, key) not in self.valid_keys:
+                raise KeyError(f'{key} is not a valid key for this class.')
+        for key in other:
+            self[key] = other[key]
+
+    def __ior__(self, other):
+        # dict.__ior__ would bypass the key validation
+        self.update(other)
+        return self
 
     def setdefault(self, key, value=None):
         if key not in self:
